@@ -253,6 +253,8 @@ func (ipv6 *IPv6) DecodeFromBytes(data []byte, df gopacket.DecodeFeedback) error
 				pEnd = len(ipv6.Payload)
 			}
 			ipv6.Payload = ipv6.Payload[:pEnd]
+			// the hop-by-hop header's payload ends where the IPv6 payload ends
+			ipv6.hbh.Payload = ipv6.Payload[ipv6.hbh.ActualLength:]
 			return nil
 		} else if jumbo && ipv6.Length != 0 {
 			return errors.New("IPv6 has jumbo length and IPv6 length is not 0")
@@ -280,6 +282,10 @@ func (ipv6 *IPv6) DecodeFromBytes(data []byte, df gopacket.DecodeFeedback) error
 		pEnd = len(ipv6.Payload)
 	}
 	ipv6.Payload = ipv6.Payload[:pEnd]
+	if ipv6.HopByHop != nil {
+		// the hop-by-hop header's payload ends where the IPv6 payload ends
+		ipv6.hbh.Payload = ipv6.Payload
+	}
 
 	return nil
 }
